@@ -533,4 +533,6 @@ WITNESSES = [
     {"id": "C03.w15-spki-update-returns-table-code", "rule": "C03.R6", "file": PK,
      "old": "\t\trtr_send_error_pdu_from_host(rtr_socket, pdu, pdu_size, DUPLICATE_ANNOUNCEMENT, NULL, 0);\n\t\trtr_change_socket_state(rtr_socket, RTR_ERROR_FATAL);\n\t\treturn RTR_ERROR;\n\t} else if (rtval == SPKI_RECORD_NOT_FOUND) {",
      "new": "\t\trtr_send_error_pdu_from_host(rtr_socket, pdu, pdu_size, DUPLICATE_ANNOUNCEMENT, NULL, 0);\n\t\trtr_change_socket_state(rtr_socket, RTR_ERROR_FATAL);\n\t\treturn rtval;\n\t} else if (rtval == SPKI_RECORD_NOT_FOUND) {"},
+    {"id": "C03.w16-ipv6-records-without-a-source", "rule": "C03.R5", "file": PK,
+     "old": "\t\tpfxr->max_len = ipv6->max_prefix_len;\n\t\tpfxr->socket = rtr_socket;", "new": "\t\tpfxr->max_len = ipv6->max_prefix_len;"},
 ]
